@@ -39,8 +39,9 @@ void GMGPolar::solve()
 
     number_of_iterations_ = 0;
 
-    double initial_residual_norm;
-    double current_residual_norm, current_relative_residual_norm;
+    double initial_residual_norm = 0.0;
+    double current_residual_norm = 0.0, current_relative_residual_norm = 0.0;
+    mean_residual_reduction_factor_ = 1.0; /* defined also when no residual norm is evaluated */
 
     while (number_of_iterations_ < max_iterations_) {
 
@@ -192,8 +193,9 @@ void GMGPolar::solve()
         /* -------------------------------- */
         /* Compute the reduction factor rho */
         /* -------------------------------- */
-        mean_residual_reduction_factor_ =
-            std::pow(current_residual_norm / initial_residual_norm, 1.0 / number_of_iterations_);
+        if (!residual_norms_.empty())
+            mean_residual_reduction_factor_ =
+                std::pow(current_residual_norm / initial_residual_norm, 1.0 / number_of_iterations_);
 
         if (verbose_ > 0) {
             std::cout << "\nTotal Iterations: " << number_of_iterations_ << std::endl;
